@@ -507,3 +507,23 @@ func dummyCallOf(f *ssa.Function) ssa.CallInstruction {
 	}
 	return nil
 }
+
+// ------------------------------------------------------------------ C11.R10
+// F33: the validator index of a vote is not signed, but it is part of duplicate-vote evidence and of its
+// hash. Evidence is "new" by hash: unless both votes must carry the index the validator really has, one
+// pair of conflicting votes yields any number of distinct pieces of evidence, each admitted and committed
+// (and punished) again.
+func init() {
+	register("C11", "R10", "K1", "duplicate-vote evidence verifies only if both votes carry the validator's own index in the set of that height", 2, func(c *Ctx) {
+		w := c.W
+		f := c.fn("evidence", "VerifyDuplicateVote")
+		if f == nil {
+			return
+		}
+		idx := `valSet\.GetByAddress\(e\.VoteA\.ValidatorAddress\)#0`
+		for _, v := range []string{"VoteA", "VoteB"} {
+			g := guardCmp(v+"'s validator index is the validator's index in the set", `e\.`+v+`\.ValidatorIndex`, "==", idx)
+			c.Check(c.ge().ensures(f, g, 1), funcKey(f)+" ensures "+g.Name, w.pos(f.Pos()), "nil only behind it", "evidence verifies whatever index "+v+" carries: the same votes with another index hash differently and count as new evidence")
+		}
+	})
+}
